@@ -103,44 +103,162 @@ def run_pair(ctx, harness, lines):
     return impl, model, None
 
 
+# expected number of textual call sites per file on the pinned tree (used to *aim* the search; a missing call is
+# reported only together with a behavioural witness, or as no-failing-input-found)
+CALLSITES = {
+    "lib/fstree/src/fstree.c": ("canonicalize_name", 1),
+    "lib/tar/src/iterator.c": ("canonicalize_name", 1),
+    "bin/sqfs2tar/src/options.c": ("canonicalize_name", 2),
+    "bin/gensquashfs/src/sort_by_file.c": ("canonicalize_name", 2),
+    "bin/gensquashfs/src/apply_xattr.c": ("canonicalize_name", 1),
+    "bin/gensquashfs/src/mkfs.c": ("canonicalize_name", 1),
+    "bin/gensquashfs/src/filemap_xattr.c": ("canonicalize_name", 1),
+    "bin/gensquashfs/src/glob.c": ("canonicalize_name", 1),
+    "bin/gensquashfs/src/fstree_from_file.c": ("canonicalize_name", 1),
+    "bin/tar2sqfs/src/options.c": ("canonicalize_name", 2),
+    "bin/tar2sqfs/src/process_tarball.c": ("canonicalize_name", 1),
+    "bin/rdsquashfs/src/options.c": ("canonicalize_name", 1),
+    "bin/rdsquashfs/src/fill_files.c": ("canonicalize_name|is_filename_sane", 2),
+    "bin/rdsquashfs/src/restore_fstree.c": ("canonicalize_name|is_filename_sane", 4),
+    "bin/rdsquashfs/src/describe.c": ("canonicalize_name|is_filename_sane", 2),
+    "bin/sqfsdiff/src/util.c": ("canonicalize_name", 1),
+}
+
+
+def callsite_scan(ctx):
+    import re
+    missing = []
+    for f, (pat, want) in CALLSITES.items():
+        p = vlib.REPO / f
+        n = len(re.findall(r"\b(?:%s)\s*\(" % pat, p.read_text(errors="replace"))) if p.exists() else 0
+        if n < want:
+            missing.append({"file": f, "calls": pat, "found": n, "expected": want})
+    return missing
+
+
+def mktar(path, members):
+    """members: list of (name, type, linkname, data)"""
+    import tarfile, io
+    with tarfile.open(path, "w", format=tarfile.GNU_FORMAT) as tf:
+        for name, typ, link, data in members:
+            ti = tarfile.TarInfo(name)
+            ti.type = typ
+            ti.linkname = link or ""
+            ti.size = len(data) if typ == tarfile.REGTYPE else 0
+            ti.mode = 0o755 if typ == tarfile.DIRTYPE else 0o644
+            tf.addfile(ti, io.BytesIO(data) if typ == tarfile.REGTYPE else None)
+
+
 def tool_probes(ctx):
-    """funnel clause: the tools refuse '..' components coming from a pack file / tar member / command line"""
+    """Funnel clause, behaviourally: every anchored entry point of a name/path into the tools either refuses a
+    '..' component or stores/uses the canonical form.  Returns [(name, ok, detail)]."""
+    import tarfile, shutil
     res = []
     gen = ctx.build_tool("gensquashfs")
     t2s = ctx.build_tool("tar2sqfs")
     rd = ctx.build_tool("rdsquashfs")
+    s2t = ctx.build_tool("sqfs2tar")
     d = ctx.scratch / "probe"
     d.mkdir(exist_ok=True)
     env = ctx.san_env()
-    # 1. pack file with '..'
-    (d / "bad.txt").write_text("dir a 0755 0 0\ndir a/../b 0755 0 0\n")
-    r = vlib.sh([str(gen), "-F", str(d / "bad.txt"), "-f", str(d / "o1.sqfs")], env=env)
-    res.append(("gensquashfs pack-file 'a/../b' refused", r.returncode != 0 and r.returncode < 90, r.returncode))
-    # 2. pack file with messy but legal path is canonicalised
-    (d / "ok.txt").write_text("dir /a//./b/ 0755 0 0\n")
-    r = vlib.sh([str(gen), "-F", str(d / "ok.txt"), "-f", str(d / "o2.sqfs")], env=env)
-    ok = r.returncode == 0
-    if ok:
-        r2 = vlib.sh([str(rd), "-l", "/a", str(d / "o2.sqfs")], env=env)
-        ok = r2.returncode == 0 and " b" in r2.stdout
-    res.append(("gensquashfs canonicalises '/a//./b/' to a/b", ok, r.returncode))
-    # 3. tar member named a/../b
-    import tarfile, io
-    tp = d / "t.tar"
-    with tarfile.open(tp, "w", format=tarfile.USTAR_FORMAT) as tf:
-        ti = tarfile.TarInfo("a/../b"); ti.size = 3
-        tf.addfile(ti, io.BytesIO(b"xyz"))
-    with open(tp, "rb") as f:
-        r = vlib.sh([str(t2s), "-f", str(d / "o3.sqfs")], stdin=f, env=env)
-    ok = True
+
+    def run(cmd, stdin=None, cwd=None):
+        try:
+            if stdin is not None:
+                with open(stdin, "rb") as f:
+                    return vlib.sh([str(c) for c in cmd], stdin=f, env=env, timeout=60, cwd=cwd)
+            return vlib.sh([str(c) for c in cmd], env=env, timeout=60, cwd=cwd)
+        except Exception as e:       # timeout
+            class R: returncode = 124; stdout = ""; stderr = "timeout: %s" % e
+            return R()
+
+    def refused(r):
+        return r.returncode != 0 and r.returncode < 90
+
+    def listing(img):
+        r = run([rd, "-d", img])
+        return r.returncode, r.stdout
+
+    def add(name, ok, r):
+        res.append((name, bool(ok), "exit %s %s" % (r.returncode, (r.stderr or "")[-200:].replace("\n", " | "))))
+
+    # a well-formed reference image: dir a, dir a/b, file a/b/f
+    (d / "f.bin").write_bytes(b"hello")
+    (d / "ref.txt").write_text("dir a 0755 0 0\ndir a/b 0755 0 0\nfile a/b/f 0644 0 0 %s\n" % (d / "f.bin"))
+    r = run([gen, "-F", d / "ref.txt", "-f", d / "ref.sqfs"])
+    add("reference image builds", r.returncode == 0, r)
+    # --- gensquashfs pack file (fstree_from_file.c) ---
+    for bad in ["a/../b", "..", "a/..", "../a", "a/b/../../c"]:
+        (d / "bad.txt").write_text("dir a 0755 0 0\ndir %s 0755 0 0\n" % bad)
+        r = run([gen, "-F", d / "bad.txt", "-f", d / "o1.sqfs"])
+        add("gensquashfs pack-file dir '%s' refused" % bad, refused(r), r)
+    (d / "ok.txt").write_text("dir /a//./b/ 0755 0 0\ndir ./c/. 0755 0 0\n")
+    r = run([gen, "-F", d / "ok.txt", "-f", d / "o2.sqfs"])
+    rc, ls = listing(d / "o2.sqfs")
+    add("gensquashfs canonicalises '/a//./b/' and './c/.'", r.returncode == 0 and rc == 0 and "dir a/b " in ls and "dir c " in ls and "." not in [w for l in ls.splitlines() for w in l.split()[1:2]], r)
+    # --- glob prefix (glob.c) ---
+    (d / "srcdir").mkdir(exist_ok=True)
+    (d / "srcdir" / "x").write_bytes(b"1")
+    (d / "glob.txt").write_text("glob p/../q 0644 0 0 -type f -- %s\n" % (d / "srcdir"))
+    r = run([gen, "-F", d / "glob.txt", "-f", d / "o3.sqfs"])
+    okp = refused(r)
     if r.returncode == 0:
-        r2 = vlib.sh([str(rd), "-l", "/", str(d / "o3.sqfs")], env=env)
-        # accepted archive must not contain an entry reached through '..'
-        ok = ".." not in r2.stdout
-    res.append(("tar2sqfs member 'a/../b' refused or skipped", ok and r.returncode < 90, r.returncode))
-    # 4. rdsquashfs command-line path with '..'
-    r = vlib.sh([str(rd), "-l", "a/../..", str(d / "o2.sqfs")], env=env)
-    res.append(("rdsquashfs -l 'a/../..' refused", r.returncode != 0 and r.returncode < 90, r.returncode))
+        rc, ls = listing(d / "o3.sqfs")
+        okp = ".." not in ls
+    add("gensquashfs glob prefix 'p/../q' refused", okp, r)
+    # --- sort file (sort_by_file.c) and xattr file (filemap_xattr.c) ---
+    (d / "sort.txt").write_text("10 a/../a/b/f\n")
+    r = run([gen, "-F", d / "ref.txt", "-S", d / "sort.txt", "-f", d / "o4.sqfs"])
+    add("gensquashfs sort-file path 'a/../a/b/f' refused", refused(r), r)
+    (d / "sort2.txt").write_text("10 /a//b/./f\n")
+    r = run([gen, "-F", d / "ref.txt", "-S", d / "sort2.txt", "-f", d / "o4.sqfs"])
+    add("gensquashfs sort-file path '/a//b/./f' accepted", r.returncode == 0, r)
+    (d / "xa.txt").write_text("# file: a/../a/b/f\nuser.k=\"v\"\n")
+    r = run([gen, "-F", d / "ref.txt", "-A", d / "xa.txt", "-f", d / "o5.sqfs"])
+    add("gensquashfs xattr-file path 'a/../a/b/f' refused", refused(r), r)
+    # --- tar member names and link targets (tar/iterator.c, process_tarball.c, fstree.c) ---
+    for bad in ["a/../b", "../x", "a/.."]:
+        mktar(d / "t.tar", [("a", tarfile.DIRTYPE, None, b""), (bad, tarfile.REGTYPE, None, b"xyz")])
+        r = run([t2s, "-f", d / "o6.sqfs"], stdin=d / "t.tar")
+        okp = refused(r)
+        if r.returncode == 0:
+            rc, ls = listing(d / "o6.sqfs")
+            okp = rc == 0 and ".." not in ls
+        add("tar2sqfs member '%s' refused or skipped" % bad, okp, r)
+    mktar(d / "t2.tar", [("/x//./y/", tarfile.DIRTYPE, None, b""), ("./x/y/./z", tarfile.REGTYPE, None, b"q")])
+    r = run([t2s, "-f", d / "o7.sqfs"], stdin=d / "t2.tar")
+    rc, ls = listing(d / "o7.sqfs")
+    add("tar2sqfs canonicalises '/x//./y/' and './x/y/./z'", r.returncode == 0 and rc == 0 and "dir x/y " in ls and "file x/y/z " in ls, r)
+    mktar(d / "t3.tar", [("d", tarfile.DIRTYPE, None, b""), ("d/f", tarfile.REGTYPE, None, b"data"),
+                          ("l", tarfile.LNKTYPE, "d/../d/f", b"")])
+    r = run([t2s, "-f", d / "o8.sqfs"], stdin=d / "t3.tar")
+    add("tar2sqfs hard link target 'd/../d/f' refused", refused(r), r)
+    for opt in ["x/../y", ".."]:
+        r = run([t2s, "-r", opt, "-f", d / "o9.sqfs"], stdin=d / "t2.tar")
+        add("tar2sqfs --root-becomes '%s' refused" % opt, refused(r), r)
+    # --- rdsquashfs / sqfs2tar command line paths ---
+    for bad in ["a/../..", "..", "a/b/../../.."]:
+        r = run([rd, "-l", bad, d / "ref.sqfs"])
+        add("rdsquashfs -l '%s' refused" % bad, refused(r), r)
+    r = run([rd, "-l", "//a/./b/", d / "ref.sqfs"])
+    add("rdsquashfs -l '//a/./b/' lists a/b", r.returncode == 0 and " f" in r.stdout, r)
+    r = run([s2t, "-r", "p/../q", d / "ref.sqfs"])
+    add("sqfs2tar --root-becomes 'p/../q' refused", refused(r), r)
+    r = run([s2t, "-d", "a/../a", d / "ref.sqfs"])
+    add("sqfs2tar --subdir 'a/../a' refused", refused(r), r)
+    # --- names inside a hostile image (restore_fstree.c, fill_files.c, describe.c: is_filename_sane) ---
+    hostile = vlib.REPO / "bin" / "rdsquashfs" / "test" / "pathtraversal.sqfs"
+    if hostile.exists():
+        jail = d / "jail"
+        shutil.rmtree(jail, ignore_errors=True)
+        (jail / "R").mkdir(parents=True)
+        before = sorted(str(p.relative_to(jail)) for p in jail.rglob("*"))
+        r = run([rd, "-u", "/", "-p", jail / "R", hostile])
+        after = sorted(str(p.relative_to(jail)) for p in jail.rglob("*") if not str(p.relative_to(jail)).startswith("R/"))
+        add("rdsquashfs -u of pathtraversal.sqfs creates nothing outside R", after == before and not os.path.exists("/tmp/gotcha.txt") and r.returncode < 90, r)
+        r = run([rd, "-d", hostile])
+        bad_lines = [l for l in r.stdout.splitlines() if any(c in ("..", ".") for c in (l.split()[1].split("/") if len(l.split()) > 1 else []))]
+        add("rdsquashfs -d of pathtraversal.sqfs prints no '.'/'..' component", r.returncode < 90 and not bad_lines, r)
     return res
 
 
@@ -194,9 +312,15 @@ def run(ctx):
                 ctx.violation("corr:" + tok(s), "correspondence broke on %r (impl=%s model=%s) but no clause fails" % (s, impl[2 * i], model[2 * i]),
                               {"input_hex": tok(s), "correspondence": "harness/h_c18.c vs Driver/C18.lean"}, found_input=False)
     probes = tool_probes(ctx)
+    failed = [n for n, okp, _ in probes if not okp]
     for name, okp, rc in probes:
         if not okp:
-            ctx.violation("funnel:" + name, "tool-level funnel probe failed: %s (exit %s)" % (name, rc), {"probe": name, "exit": rc})
+            ctx.violation("funnel:" + name, "tool-level funnel probe failed: %s (%s)" % (name, rc), {"probe": name, "detail": rc})
+    missing = callsite_scan(ctx)
+    if missing and not failed:
+        ctx.violation("funnel-callsite:" + ",".join(m["file"] for m in missing),
+                      "anchored call site(s) no longer route names through canonicalize_name/is_filename_sane: %s; no behavioural probe failed" % missing,
+                      {"correspondence": "call-site presence (tools/checks/c18.py CALLSITES)", "missing": missing}, found_input=False)
     ctx.cov.update({
         "evaluations": len(lines) + len(lines2) + len(probes),
         "distinct_nontrivial": len(nontrivial),
@@ -207,7 +331,8 @@ def run(ctx):
         "samples": [{"input": repr(inputs[i]), "impl": impl[2 * i], "model": model[2 * i]} for i in
                     [ncorpus + 7, ncorpus + 333, ncorpus + 4242, len(inputs) - 1] if i < len(inputs)],
         "disagreements_checked": mism + clause_bad,
-        "tool_probes": [{"probe": n, "ok": o, "exit": rc} for n, o, rc in probes],
+        "tool_probes": [{"probe": n, "ok": o, "detail": rc} for n, o, rc in probes],
+        "callsites_missing": missing,
         "idempotence_second_pass_inputs": len(lines2),
     })
     return ctx.finish(LEVEL, trusted_extra=["C strings are modelled as their bytes before the NUL; in-place rewriting is modelled as read-original/emit-output (dst ≤ src lemmas norm_dst_le_src, canon_dst_le_src)",
